@@ -133,6 +133,11 @@ Section Spec.
   Definition edge_before_start (all page : list E) : Prop :=
     exists e, In e all /\ ~ In e page /\ forall p, In p page -> ltb (cur e) (cur p) = true.
 
+  (** [first] and [last] together ("strongly discouraged" by the specification; a connection
+      field rejects it, pagination.EdgesToReturn accepts it) *)
+  Definition both_given (first last : option Z) : bool :=
+    match first, last with Some _, Some _ => true | _, _ => false end.
+
   (** ** argument errors: a negative count, a missing count, first and last together *)
   Definition args_rejected (first last : option Z) : bool :=
     match first, last with
